@@ -50,6 +50,13 @@ def front(arg: dict) -> dict:
         gs.append({"vs": [_item(v["op"], special) for v in g.vs],
                    "es": [[e.source, e.target, e["flow_level"], bool(e["loop"])] for e in g.es]})
     out["graphs"] = gs
+    # first rewriting phase
+    try:
+        grapher.optimize_paths()
+        out["opt"] = [{"vs": [_item(v["op"], special) for v in g.vs],
+                       "es": [[e.source, e.target, e["flow_level"], bool(e["loop"])] for e in g.es]} for g in grapher.get_graphs()]
+    except BaseException as e:  # noqa
+        out["opt"] = {"error": type(e).__name__}
     return out
 
 
